@@ -24,7 +24,7 @@ fn spec() -> Spec {
             Kind { name: "trajectory", quick: 2_000, thorough: 60_000, serial: false },
             Kind { name: "with_shape", quick: 6_000, thorough: 300_000, serial: false },
         ],
-        rule: "single_call: non-degenerate robot (dof 5/6) x pose (FK of q / random SE(3)) x previous in [-2pi,2pi]^6 (generating, shifted by whole turns, uniform) or the CONSTRAINT_CENTERED sentinel x {no limits, wide limits with weight 0 / 1 / random}; inverse_continuing and inverse_continuing_5dof: nearest 2pi-representative per angle, non-decreasing documented cost, superset of plain inverse (same solver), previous-realises-pose => first answer. trajectory: dense joint-space trajectories (sums of sinusoids inside [-2pi,2pi], step <= 0.03 rad/joint, 200..1500 steps, truncated where elbow/shoulder margins < 0.1); each call's previous is the preceding first answer; first answer must track q(t) and its increments. with_shape: the same clauses (nearest representative, cost order, free legal previous first) through KinematicsWithShape on synthetic cells with obstacles on other IK branches (its collision filter runs on the rayon pool). non-trivial = call returned >= 2 answers (single_call) / trajectory of >= 50 tracked steps; distinct = hash(robot, pose/trajectory seed, previous) Workload additions: a quarter of the limit sets installed through update_range histories; wrap-around limit classes whose library centre lies up to 3pi; a joint a hair inside +-pi against a previous of exactly +-0.0; a fifth of the solvers behind Tool / Base / Frame stacks; kind with_shape = the same clauses through KinematicsWithShape (filter on the rayon pool) with obstacles on other IK branches.",
+        rule: "single_call: non-degenerate robot (dof 5/6) x pose (FK of q / random SE(3)) x previous in [-2pi,2pi]^6 (generating, shifted by whole turns, uniform) or the CONSTRAINT_CENTERED sentinel x {no limits, wide limits with weight 0 / 1 / random}; inverse_continuing and inverse_continuing_5dof: nearest 2pi-representative per angle, non-decreasing documented cost, superset of plain inverse (same solver), previous-realises-pose => first answer. trajectory: dense joint-space trajectories (sums of sinusoids inside [-2pi,2pi], step <= 0.03 rad/joint, 200..1500 steps, truncated where elbow/shoulder margins < 0.1); each call's previous is the preceding first answer; first answer must track q(t) and its increments. with_shape: the same clauses (nearest representative, cost order, free legal previous first) through KinematicsWithShape on synthetic cells with obstacles on other IK branches (its collision filter runs on the rayon pool). non-trivial = call returned >= 2 answers (single_call) / trajectory of >= 50 tracked steps; distinct = hash(robot, pose/trajectory seed, previous) Workload additions: a quarter of the limit sets installed through update_range histories; wrap-around limit classes whose library centre lies up to 3pi; a joint a hair inside +-pi against a previous of exactly +-0.0; a fifth of the solvers behind Tool / Base / Frame stacks; kind with_shape = the same clauses through KinematicsWithShape (filter on the rayon pool) with obstacles on other IK branches. Rounds 7-9: near-tie previous vectors (midpoint of two adjacent answers nudged by 2e-7 rad); limit sets that leave a single IK branch; previous with a joint exactly on the +-2pi border.",
         assumptions: vec![
             "cost = (1-w)*sum|s-prev| + w*sum|s-centre|, w=0 without limits; prev := constraint centres (zeros without limits) for the sentinel",
             "ties: an angle exactly pi away from previous may take either representative (tolerance 1e-9)",
@@ -140,6 +140,13 @@ fn single(idx: u64, rng: &mut Rng, mon: &mut Mon) {
             CONSTRAINT_CENTERED
         }
     };
+    // (one explicit previous vector in fifteen has a joint exactly ON the border of the documented range, +-2*pi)
+    let mut prev = prev;
+    if !sentinel && (pclass == 2 || pclass == 3) && rng.usize(6) == 0 {
+        prev[rng.usize(6)] = rng.sign() * 2.0 * PI;
+        mon.count("previous_with_a_joint_exactly_on_the_border");
+    }
+    let prev = prev;
     let reference = if sentinel { centres } else { prev };
     mon.count(&format!("weight_mode.{}", ["none", "by_prev", "by_constraints", "mixed"][cons_mode]));
     mon.count(&format!("prev_class.{}", ["generating", "shifted", "uniform", "uniform", "sentinel", "zero_vs_near_pi"][pclass]));
